@@ -6,6 +6,7 @@ import (
 	"bytes"
 	"encoding/json"
 	"fmt"
+	"io"
 	"sync"
 
 	"github.com/brutella/hc/util"
@@ -82,12 +83,19 @@ func runTLVWord(b Beh, seed int64) []J {
 		prev = len(ser)
 		o["frags"] = frags
 		// hc's own reparse returns the same bytes for every tag set so far
-		rt := false
-		if c2, err := util.NewTLV8ContainerFromReader(bytes.NewReader(ser)); err == nil {
-			rt = true
+		// ... however the reader delivers the serialisation (at once, byte by byte, in two pieces, last piece together with EOF)
+		rt := true
+		for _, pol := range tlvDeliveries {
+			c2, err := util.NewTLV8ContainerFromReader(tlvReader(ser, pol))
+			if err != nil {
+				rt = false
+				o["failed_delivery"] = pol
+				break
+			}
 			for tg, w := range want {
 				if !bytes.Equal(c2.GetBytes(tg), w) || !bytes.Equal(c.GetBytes(tg), w) {
 					rt = false
+					o["failed_delivery"] = pol
 				}
 			}
 		}
@@ -97,15 +105,25 @@ func runTLVWord(b Beh, seed int64) []J {
 	return lines
 }
 
+var tlvDeliveries = []string{"whole", "one_byte", "halves", "data_with_eof"}
+
+func tlvReader(b []byte, policy string) io.Reader {
+	if policy == "whole" {
+		return bytes.NewReader(b)
+	}
+	return &chunkReader{data: append([]byte{}, b...), policy: policy}
+}
+
 func parseLine(id, i int, in []byte) J {
-	o := J{"ev": "parse", "case": id, "i": i, "in": intsOf(in), "ok": false, "panic": false, "tags": []int{}, "vals": [][]int{}}
+	pol := tlvDeliveries[(i/4)%len(tlvDeliveries)]
+	o := J{"ev": "parse", "case": id, "i": i, "in": intsOf(in), "ok": false, "panic": false, "tags": []int{}, "vals": [][]int{}, "delivery": pol}
 	func() {
 		defer func() {
 			if r := recover(); r != nil {
 				o["panic"] = true
 			}
 		}()
-		c, err := util.NewTLV8ContainerFromReader(bytes.NewReader(in))
+		c, err := util.NewTLV8ContainerFromReader(tlvReader(in, pol))
 		if err != nil {
 			return
 		}
